@@ -393,8 +393,8 @@ def is_cocircular(
 
     coplanar: npt.NDArray[np.bool_] | bool = True
     if a.dim > 2:
-        coplanar = is_coplanar(a, b, c, d)
         e = join(a, b, c)
+        coplanar = e.contains(d)
         basis = e.basis_matrix
         a = a._matrix_transform(basis)
         b = b._matrix_transform(basis)
